@@ -1,2 +1,116 @@
-(* C11 - placeholder while the proofs are integrated; replaced below *)
-From WV Require Import Model.CodeMap.
+(* C11 - the code-offset map handed to custom sections is exact.  Statements only; proofs in Proofs/CodeMap.v.
+   Model/CodeMap.v models the tail of ModuleFunctions::emit; positions inside a body are the [imap] of the Emit
+   visitor model (Model/EmitFn.v), tied to the normal form of the parsed body by roundtrip_body (C03).
+   - every location occurs in at most one pair; a pair (loc, (k, pos)) means: in the k-th emitted function the
+     instruction whose InstrLocId is loc starts at byte pos of the body, and that instruction is the image of the
+     input instruction at input offset loc (c11_roundtrip_imap_exact); instructions carrying the default location
+     (everything inserted through the builder API) are in no pair;
+   - the function ranges are the extents [size LEB, end of body) of the entries, contiguous from the first entry,
+     sorted by function id;
+   - code_section_start is where the contents of the code section (the function count) start; the formula the
+     code used before the repair (first entry - 2) is refuted and shown right only for 128..16383 bodies. *)
+From Coq Require Import List NArith ZArith Arith Bool Sorting.Sorted Sorting.Permutation. Import ListNotations.
+From WV Require Import Gen.Ops Model.Common Model.IR Model.Arena Model.Builder Model.ParseFn Model.ParseSpec
+  Model.Traversal Model.EmitFn Model.EmitSpec Model.BodySpec Model.ModuleM Model.ParseM Model.EmitM Model.CodeMap.
+From WV Require Import Proofs.ParseFn Proofs.Body.
+From WV Require Proofs.Builder.
+From WV Require Import Proofs.CodeMap.
+Local Open Scope nat_scope.
+
+Theorem c11_pairs_one_per_location : forall efs loc v v',
+  In (loc, v) (ct_pairs efs) -> In (loc, v') (ct_pairs efs) -> v = v'.
+Proof. exact ct_pairs_functional. Qed.
+
+Theorem c11_inserted_instructions_in_no_pair : forall efs loc v, In (loc, v) (ct_pairs efs) -> loc <> default_loc.
+Proof. exact ct_pairs_no_default. Qed.
+
+Theorem c11_pairs_sound : forall efs loc k pos,
+  In (loc, (k, pos)) (ct_pairs efs) -> exists e, nth_error efs (N.to_nat k) = Some e /\ In (loc, pos) (ef_imap e).
+Proof. exact ct_pairs_sound. Qed.
+
+Theorem c11_pairs_complete : forall efs k e loc pos,
+  nth_error efs k = Some e -> In (loc, pos) (ef_imap e) -> loc <> default_loc -> exists v, In (loc, v) (ct_pairs efs).
+Proof. exact ct_pairs_complete. Qed.
+
+Theorem c11_pairs_exact : forall efs, NoDup (all_nd_keys efs) ->
+  forall loc k pos,
+  In (loc, (k, pos)) (ct_pairs efs) <->
+  (loc <> default_loc /\ exists e, nth_error efs (N.to_nat k) = Some e /\ In (loc, pos) (ef_imap e)).
+Proof. exact ct_pairs_unique_source. Qed.
+
+Theorem c11_position_is_first_byte : forall cx tg p0 loc pos,
+  In (loc, pos) (tag_positions cx p0 tg) <->
+  exists pre w post, tg = pre ++ (loc, w) :: post /\ pos = (p0 + total_len cx pre)%N.
+Proof. exact tag_positions_In_iff. Qed.
+
+Theorem c11_tag_is_location_of_source_instruction : forall cx ecx l eloc loc w, In (loc, w) (nf_body cx ecx l eloc) ->
+    (loc = default_loc /\ w = WElse) \/ exists wi, In (wi, loc) (flat_list l ++ [(WEnd, eloc)]) /\ img cx ecx wi w.
+Proof. exact nf_body_tag_origin. Qed.
+
+Theorem c11_roundtrip_imap_exact : forall cx ecx ety rs l eloc p0,
+  wfl cx 1 l ->
+  (forall o, decode_plain (px_i2id cx) o <> None -> encode_plain (ex_id2i ecx) (dec cx o) <> None) ->
+  exists ar st fuel,
+    parse_body cx ety rs (flat_list l ++ [(WEnd, eloc)]) = Ok ar /\
+    emit_body ecx fuel ar 0 p0 = Ok st /\
+    forall loc pos, In (loc, pos) (imap st) <->
+      exists pre w post, nf_body cx ecx l eloc = pre ++ (loc, w) :: post /\ pos = (p0 + total_len ecx pre)%N /\
+        ((loc = default_loc /\ w = WElse) \/
+         exists wi, In (wi, loc) (flat_list l ++ [(WEnd, eloc)]) /\ img cx ecx wi w).
+Proof. exact roundtrip_imap_exact. Qed.
+
+Theorem c11_function_ranges_are_entries : forall l first k id s e,
+  nth_error (ranges_from first l) k = Some (id, (s, e)) ->
+  exists sz, nth_error l k = Some (id, sz) /\
+             s = (first + entries_len (firstn k l))%N /\ e = (s + leb_len sz + sz)%N.
+Proof. exact ranges_from_spec. Qed.
+
+Theorem c11_function_ranges_contiguous : forall l first k id s e id' s' e',
+  nth_error (ranges_from first l) k = Some (id, (s, e)) ->
+  nth_error (ranges_from first l) (S k) = Some (id', (s', e')) -> s' = e.
+Proof. exact ranges_from_contiguous. Qed.
+
+Theorem c11_function_ranges_members : forall first ids sizes x,
+  In x (ct_function_ranges first ids sizes) <-> In x (ranges_from first (combine ids sizes)).
+Proof. exact ct_function_ranges_In. Qed.
+
+Theorem c11_function_ranges_sorted : forall first ids sizes,
+  StronglySorted id_le (ct_function_ranges first ids sizes).
+Proof. exact ct_function_ranges_sorted. Qed.
+
+Theorem c11_code_section_start : forall c n, ct_code_section_start (c + leb_len n) n = c.
+Proof. exact ct_code_section_start_spec. Qed.
+
+Theorem c11_old_formula_refuted : exists c n, (n < 128)%N /\ (c + leb_len n - 2)%N <> c.
+Proof. exact old_formula_refuted. Qed.
+
+Theorem c11_old_formula_right_only_for_two_byte_count : forall c n, (1 <= c)%N ->
+  ((c + leb_len n - 2)%N = c <-> (128 <= n < 16384)%N).
+Proof. exact old_formula_right_range. Qed.
+
+Theorem c11_marker_default_loc a cur pos i a' : insert_i a cur pos i = Ok a' ->
+  exists q l1 l2, nth_error a (N.to_nat cur) = Some q /\ sq_instrs q = l1 ++ l2 /\ length l1 = N.to_nat pos /\
+    nth_error a' (N.to_nat cur) = Some {| sq_ty := sq_ty q; sq_instrs := l1 ++ (i, default_loc) :: l2; sq_end := sq_end q |} /\
+    (forall c, c <> N.to_nat cur -> nth_error a' c = nth_error a c).
+Proof. exact (insert_i_spec a cur pos i a'). Qed.
+
+Theorem c11_inserted_not_in_map : forall efs v, ~ In (default_loc, v) (ct_pairs efs).
+Proof. exact inserted_not_in_map. Qed.
+
+Print Assumptions c11_pairs_one_per_location.
+Print Assumptions c11_inserted_instructions_in_no_pair.
+Print Assumptions c11_pairs_sound.
+Print Assumptions c11_pairs_complete.
+Print Assumptions c11_pairs_exact.
+Print Assumptions c11_position_is_first_byte.
+Print Assumptions c11_tag_is_location_of_source_instruction.
+Print Assumptions c11_roundtrip_imap_exact.
+Print Assumptions c11_function_ranges_are_entries.
+Print Assumptions c11_function_ranges_contiguous.
+Print Assumptions c11_function_ranges_members.
+Print Assumptions c11_function_ranges_sorted.
+Print Assumptions c11_code_section_start.
+Print Assumptions c11_old_formula_refuted.
+Print Assumptions c11_old_formula_right_only_for_two_byte_count.
+Print Assumptions c11_marker_default_loc.
+Print Assumptions c11_inserted_not_in_map.
